@@ -42,7 +42,7 @@ class C19(F.Check):
         "false, as for raw floats); at bit level q + ZERO is the raw `x + R{0}`, which maps -0.0 to +0.0 and quiets signalling NaNs",
         "the rejection of ZERO where a QuantityPoint is required is only observed through std::is_constructible / "
         "std::is_convertible / an expression-SFINAE probe of operator==; other ill-formedness is outside",
-        "g++ and -std=c++17/20 are outside (C20 covers the clang -std axis); g++ is only used for native replay / translator validation",
+        "g++ and -std=c++17 are outside (C20 covers the clang -std axis); the ZERO comparisons are additionally lowered at -std=c++20 for one unit per rep; g++ is only used for native replay / translator validation",
     ]
 
     def bounds(self):
@@ -70,10 +70,12 @@ class C19(F.Check):
             ks.append(k)
             return k.name
 
-        def pair(fam, ct, ut, ret, au_body, raw_body):
+        def pair(fam, ct, ut, ret, au_body, raw_body, std=None):
             args = [(ct, "x")]
             key = {"rep": ct, "unit": ut, "op": fam}
-            au = add(F.Kernel("c19_%s_%s_%s" % (fam, rtag(ct), ut), ret, args, au_body, key=key, family=fam))
+            if std:
+                key["std"] = std
+            au = add(F.Kernel("c19_%s_%s_%s" % (fam, rtag(ct), ut), ret, args, au_body, key=key, family=fam, std=std))
             rw = "c19_raw_%s_%s" % (fam, rtag(ct))
             if rw not in raw_seen:
                 raw_seen.add(rw)
@@ -106,6 +108,11 @@ class C19(F.Check):
                 for cn, op in CMPS:
                     pair("q_%s_z" % cn, ct, ut, "bool", "return %s %s ZERO;" % (q, op), "return x %s %s;" % (op, z))
                     pair("z_%s_q" % cn, ct, ut, "bool", "return ZERO %s %s;" % (op, q), "return %s %s x;" % (z, op))
+                    # the same comparisons compiled as C++20 (rewritten/synthesised comparison candidates, operator<=> if any) must still be
+                    # the raw comparison with 0: one unit per rep, floating reps and two integral ones
+                    if ut == self.units()[0][0] and (F.ct_is_float(ct) or ct in ("int32_t", "uint8_t") or self.tier == "thorough"):
+                        pair("q_%s_z_cxx20" % cn, ct, ut, "bool", "return %s %s ZERO;" % (q, op), "return x %s %s;" % (op, z), std="c++20")
+                        pair("z_%s_q_cxx20" % cn, ct, ut, "bool", "return ZERO %s %s;" % (op, q), "return %s %s x;" % (z, op), std="c++20")
                 # additive identities, bit level: same as the raw expression with R{0}
                 pair("q_plus_z", ct, ut, P, "return (%s + ZERO).in(%s{});" % (q, U), "return x + %s;" % z)
                 pair("q_minus_z", ct, ut, P, "return (%s - ZERO).in(%s{});" % (q, U), "return x - %s;" % z)
